@@ -32,7 +32,7 @@ def run(model: RepoModel, rep, tier: str):
     rep.rule("C18.R4", "copying is bounded: the directory walk that copies inputs never descends into the workspace, and symlinked "
                        "sources are skipped", min_instances=2)
     rep.rule("C18.R5", "the workspace path is fixed before anything touches the filesystem: the default directory name is appended and "
-                       "preparation runs after that", min_instances=2)
+                       "preparation runs after that", min_instances=3)
 
     def classify(roots: Set[str]):
         bad = [r for r in roots if r in ("input", "cwd", "settings", "relative-name", "tempdir") or r.startswith("const:'/")]
@@ -240,6 +240,31 @@ def run(model: RepoModel, rep, tier: str):
     (rep.holds if appended else rep.violation)("C18.R5", key, "main.py", sw.node.lineno,
                                                "options.workspace = join(options.workspace, <default name>) unless already present" if appended else
                                                "the default workspace directory name is no longer appended: --force empties the directory the user named")
+    # the only excuse for not appending is that the text the user gave already names the default directory; a test on a path derived
+    # from the process's current directory (abspath/realpath/getcwd) skips the append for reasons the user never stated
+    key = "main.py::Lian.set_workspace_dir::the append is skipped only for what the user wrote"
+    scfg = cfg_of(sw.node)
+    ENV_CALLS = ("os.path.abspath", "os.path.realpath", "os.getcwd", "os.path.expanduser", "os.path.normpath", "Path.cwd", "os.path.dirname",
+                 "os.path.basename")
+    bad = None
+    n_app = 0
+    for n in scfg.g.nodes:
+        st = scfg.stmt.get(n)
+        if scfg.kind[n] == "stmt" and isinstance(st, ast.Assign) and dotted(st.targets[0]) == "self.options.workspace" \
+                and isinstance(st.value, ast.Call) and call_name(st.value) == "os.path.join":
+            n_app += 1
+            for atom, _truth in scfg.conditions_at(n):
+                for c in ast.walk(atom):
+                    if isinstance(c, ast.Call) and (call_name(c) in ENV_CALLS or (isinstance(c.func, ast.Attribute) and c.func.attr in ("resolve", "absolute"))):
+                        bad = (atom, c)
+    if n_app:
+        if bad:
+            rep.violation("C18.R5", key, "main.py", bad[0].lineno,
+                          f"whether the default directory name is appended is decided by `{norm(bad[0])}`, which depends on `{norm(bad[1])}` and "
+                          f"hence on the directory the process runs in, not on what the user wrote after -w: run from below a directory whose "
+                          f"name contains the default name, the bare -w directory becomes the workspace and --force empties it")
+        else:
+            rep.holds("C18.R5", key, "main.py", sw.node.lineno, "the conditions guarding the append test the option text only")
     key = "main.py::Lian.init_submodules::workspace fixed before preparation"
     icfg = cfg_of(ini.node)
     prep_nodes = [n for n in icfg.g.nodes for c in icfg.calls_at(n) if call_name(c) == "preparation.run"]
@@ -299,6 +324,8 @@ MUTANTS = [
     ("workspace-name-not-appended", "main.py",
      _t("            self.options.workspace = os.path.join(self.options.workspace, default_workspace_dir)\n", "            pass\n"),
      "set_workspace_dir"),
+    ("append-skipped-by-cwd", "main.py", _t("if default_workspace_dir not in self.options.workspace:", "if default_workspace_dir not in os.path.abspath(self.options.workspace):"),
+     "the append is skipped only for what the user wrote"),
     ("sfg-dump-relative", "core/sfg_dumper.py", _t('with open(self.file_name, "w", encoding="utf-8") as f:', 'with open(os.path.basename(self.file_name), "w", encoding="utf-8") as f:'),
      "dump_to_file"),
 ]
